@@ -47,7 +47,7 @@ text("C03",
 add("C08", "exploration",
     [{"name": "tube-stream", "quick_s": 35, "thorough_s": 900}, {"name": "tube-reassembly", "quick_s": 8, "thorough_s": 200}],
     real=["tubes (Muxer, Reliable, sender, receiver, frames, priority queue)", "common.DeadlineChan", "tube-reassembly: the real tubes.receiver alone (overlay accessor), everything else stubbed"],
-    stub=["transport session under the muxers (replaced by a simulated MsgConn pair so that frame-level faults are exact)"])
+    stub=["transport session under the muxers in 5 of 6 runs (simulated MsgConn pair so that frame-level faults are exact); in 1 of 6 runs of tube-stream the muxers run on a REAL transport session (server Handle / Client after a real handshake), nothing stubbed but the UDP socket"])
 text("C08",
      "seeded exploration of packet-fault schedules (loss up to 60 %, duplication, reordering by jitter and long delays, loss bursts, total and one-way outages from 0.1 s to 10 simulated minutes followed by recovery) under 1-3 reliable tubes with both directions active, write-size profiles from 1 byte to several windows; prefix oracle on every Read against the canonical written stream, end-of-stream position oracle at the end that stays open, bounded-liveness oracle (every written byte readable within 5 simulated minutes after the last fault); plus a component-level simulation of the reassembly core: the real receiver is fed seeded arrival schedules of 1-12 frames (+FIN) with reordering, duplicates and frames far outside or at the edge of the window, starting at frame numbers 1, around 2^31, across the 2^32 wrap and beyond 2^33, and after every arrival the assembled bytes must equal the in-order prefix of what arrived and the FIN must be processed exactly when its number is reached",
      TB + "; the liveness bound (5 min) is a harness parameter, not mirrored from the code", "deterministic simulation with fault injection (seeded fault-schedule search, prefix/EOF/bounded-liveness oracles)", "DESIGN.md 4 C08")
@@ -125,7 +125,7 @@ text("C19",
 add("C16", "exploration",
     [{"name": "tube-shutdown", "quick_s": 40, "thorough_s": 900}],
     real=["tubes (Muxer, Reliable, Unreliable, sender, receiver): yield-instrumented copies of the current sources", "common.DeadlineChan"],
-    stub=["transport session under the muxers (simulated MsgConn pair)"])
+    stub=["transport session under the muxers in 7 of 8 runs (simulated MsgConn pair); in 1 of 8 runs the muxers run on a real transport session"])
 text("C16",
      "seeded concurrent programs (Write / Read with deadline / Close / WaitForClose per tube end, 1-4 reliable and unreliable tubes opened from both sides, Muxer.Stop on either side at drawn instants, also twice and racing Create/Accept) over a network that is healthy, lossy, dead from the start, dying at a drawn instant, one-way dead or lossy-then-dead, with seeded yields (Gosched / micro- and millisecond stalls) armed at instrumented lock/channel/atomic/timer sites of package tubes; oracle: every Close and every Stop returns within 30 simulated seconds, WaitForClose completes within 90 s once both ends closed on a live network or the muxer was stopped, after Stop every tube is closed and Write fails, Read never returns bytes that were not written, after closure Read drains and reports end-of-stream, no panic, and no goroutine of the system is left when the bubble ends (synctest deadlock report)",
      TB + "; interleavings are explored on one P at instrumented synchronisation statements (sequentially consistent); Write/Read blocking on a tube whose initiation never completes is outside the statement and not judged; on a dead network WaitForClose is only required to return once Muxer.Stop is called",
@@ -149,7 +149,7 @@ add("C09", "exploration",
      {"name": "accept-backlog", "quick_s": 8, "thorough_s": 200}],
     real=["tubes (Muxer demultiplexing, id choice, reaping, Reliable, Unreliable, frames)",
           "app-session-tubes: hopclient.HopClient (NewHopClient, DialExternalAuthenticator, muxer construction, user authorization, HandleTubes), hopserver session code (newSession, start, newAuthGrantTube), transport client/server, userauth"],
-    stub=["tube-isolation: transport session under the muxers (simulated MsgConn pair)",
+    stub=["tube-isolation: transport session under the muxers in 7 of 8 runs (simulated MsgConn pair); real transport session in 1 of 8",
           "app-session-tubes: the UDP socket of transport.DialWithDialer (VerifDial seam inserted by the build step), the server's delegate-proxy unix socket (not started), authorized_keys file system (in-memory fs.FS)"])
 text("C09",
      "seeded concurrent open/write/close/reopen programs from both muxer roles (several opener workers per side, reliable and unreliable tubes of drawn types, far more opens than live tubes so identifiers are reused) under delay, reordering, duplication, loss and late-packet faults (long delays and verbatim late replays of up to several seconds); every tube INSTANCE has a unique tag and every 64-byte stream cell / every unreliable message carries tag, offset, id, reliability and type; oracle: everything an instance reads comes from exactly one instance on the other side with the same id and reliability (violations are attributed: cross-id, cross-reliability, stale-after-reuse/{reliable,unreliable}, own-data-echoed), Create returns identifiers of the muxer's parity that are not in use, accepted tubes have the peer's parity, Accept never returns more tubes of (id, reliability) than the peer opened (ghost), unreliable reads return exactly one written message (length, header and tail pattern). Second scenario (app-session-tubes): the real hop client logs in to the real hop server session code over the simulated network, then both applications open reliable tubes towards each other at (nearly) the same moment for several rounds (the server through its own newAuthGrantTube, the client as its window-size/exec code does), with loss, duplication, jitter and muxer yields; oracle: tubes alive at the same time in one session have distinct (reliability, id) identities whichever side opened them. Third scenario (accept-backlog): one side opens 20..128 reliable and 0..100 unreliable tubes (around and beyond the muxer's accept queue of 128) before the other side calls Accept for the first time, under light loss/duplication; oracle: every tube whose opener saw it come up is returned by Accept exactly once with its identifier, reliability and type",
